@@ -47,7 +47,7 @@ pub fn failure_in(l: &narsese::conversion::string::impl_lexical::NarseseFormat, 
 /// format of vocabulary `prev` was created, used and dropped just before
 pub fn recreated_failure(prev: Option<Fmt>, f: Fmt, x: &LexNarsese) -> Option<String> {
     if let Some(p) = prev {
-        if last_recreated() != Some(p) {
+        {
             let v = Vocab::of(p);
             let a = LexTerm::new_atom("", "A");
             let warm = LexTerm::new_statement(
